@@ -28,6 +28,7 @@ def run(repo, run, tier):
     restore(repo, run, m)
     exits(repo, run, m)
     at_target(repo, run, m)
+    orientation_preserves_magnitude(repo, run, m)
 
 
 # ------------------------------------------------------------------------------------------------
@@ -124,6 +125,11 @@ def commit(repo, run, m):
         run.report("C03.2", DS, bad[0], "a call that can reach user code sits between the row writes and `counter += 1`: if it raises, times and "
                                         "states are no longer paired")
     # (e) loop guard
+    loop_guard(run, rid, m, c, "C03.2")
+
+
+def loop_guard(run, rid, m, c, rule_id):
+    """the step loop continues while the DISTANCE to the target is at least epsilon: a magnitude test, independent of the sign of dt or of the times"""
     guard_ok = False
     for cmp_ in [n for n in ast.walk(m.loop.test) if isinstance(n, ast.Compare) and len(n.ops) == 1]:
         l, r, op = cmp_.left, cmp_.comparators[0], cmp_.ops[0]
@@ -133,8 +139,8 @@ def commit(repo, run, m):
                 guard_ok = True
     run.judged(rid, "loop guard: %s" % src(m.loop.test)[:140], ok=guard_ok)
     if not guard_ok:
-        run.report("C03.2", DS, m.loop.test, "the loop condition does not continue while |tf - t[counter]| >= epsilon: the run can stop short of the "
-                                             "target or never reach it")
+        run.report(rule_id, DS, m.loop.test, "the loop condition does not continue while |tf - t[counter]| >= epsilon (a magnitude test): the run can stop short of the "
+                                             "target or never reach it, e.g. when dt is not oriented toward this call's target at the time the condition is evaluated")
 
 
 def _final_predicate(run, rid, m, c, fs, rule_id="C03.2"):
@@ -527,3 +533,22 @@ def at_target(repo, run, m):
         if not ok:
             run.report("C03.8", DS, r, "integrate() returns without stepping under a condition that is not `|tf - t[counter]| < k*epsilon(dtype)` (atoms: %s): a target that is "
                                        "merely close to the current time is never reached, and the call still counts as successful" % ([a.split("@")[0][:70] for a in atoms],))
+
+
+def orientation_preserves_magnitude(repo, run, m):
+    """ends at the target: the re-orientation of the step toward the target may only change the SIGN of dt.  `abs(dt) * sign(t1 - t0)` is a sign flip for t1 != t0
+    but the ZERO step for t1 == t0 (sign(0) = 0): the loop guard `dt != 0` then ends the run where it stands, successfully."""
+    rid = run.rule("C03.9", "__fix_dt_dir stores only `self.__dt` or `-self.__dt` (a sign flip that cannot produce a zero step from a non-zero one)", floor=1)
+    fix = repo.get(DS, "OdeSystem.__fix_dt_dir")
+    run.analysed_fn(DS, fix)
+    sts = [st for st in ast.walk(fix) if isinstance(st, (ast.Assign, ast.AugAssign)) and any(
+        is_self_attr(t, "__dt") or is_self_attr(t, "dt") for t in (st.targets if isinstance(st, ast.Assign) else [st.target]))]
+    if not sts:
+        raise AnalysisError("__fix_dt_dir does not store the step")
+    for st in sts:
+        ok = isinstance(st, ast.Assign) and src(st.value) in ("-self.__dt", "self.__dt", "-1 * self.__dt", "self.__dt * -1", "-1.0 * self.__dt")
+        run.judged(rid, "__fix_dt_dir: %s" % src(st), ok=ok)
+        if not ok:
+            run.report("C03.9", DS, st, "__fix_dt_dir computes the oriented step as `%s` instead of flipping the sign of the stored one: when the two times coincide (the run is "
+                                        "exactly at the constructor's tf, or t0 == tf) the factor sign(0) = 0 makes the step zero, the step loop's `dt != 0` guard ends the run "
+                                        "short of the target and later calls divide by it" % src(st.value if isinstance(st, ast.Assign) else st))
